@@ -86,6 +86,24 @@ def run(ck):
         is_id = ("true", "%s.is_id()" % leaf) in f
         cst = any(x[0] == "true" and "is_expr_cst(" in x[1] for x in f)
         ok = ok and is_id and cst
+    if not sts:
+        # the same table written as comprehensions (possibly chained through temporaries): every filter on the way from the leaves to the
+        # table is collected; there must be an identifier filter on the leaf and an is_expr_cst filter on its value
+        from sa.astutil import Resolver as _Rp
+        rp = _Rp(fn)
+        tab = None
+        for c in walk_body(fn):
+            if isinstance(c, ast.Call) and isinstance(c.func, ast.Attribute) and c.func.attr == "replace_expr" and c.args:
+                tab = rp.expand_node(c.args[0])
+        filters = []
+        key_is_leaf = False
+        if tab is not None:
+            for x in ast.walk(tab):
+                if isinstance(x, ast.comprehension):
+                    filters.extend(norm(f_) for f_ in x.ifs)
+            key_is_leaf = isinstance(tab, ast.DictComp)
+        import re as _rp
+        ok = key_is_leaf and any(_rp.match(r"^\w+\.is_id\(\)$", f_) for f_ in filters) and any("is_expr_cst(" in f_ and not f_.startswith("not ") for f_ in filters)
     ck.ob("R3", "propag_expr_cst", ok, m.where(fn), "substitution must be limited to identifiers whose value satisfies is_expr_cst")
     fn = m.func("SymbExecStateFix.eval_updt_irblock")
     loops = [n for n in walk_body(fn) if isinstance(n, ast.For) and "enumerate(irb)" in norm(n.iter)]
